@@ -78,3 +78,4 @@ package dependency
 //@   props C17
 //@   requires [wired] db != nil
 //@   ensures [id-required] !dep.ID.present ==> result1 != nil
+//@   ensures [notification-list-is-a-copy] result1 == nil && len(result0) > 0 ==> fresh(result0)
